@@ -21,6 +21,22 @@ FILELISTS = [['f1'], ['f1', 'f2'], 'f1']
 ENCODINGS = ['utf-8']
 
 
+_BYTES = (bytes, bytearray, SymBytes)
+
+
+def _keq(a, b):
+    """cache key equality, decided by the solver for symbolic octets"""
+    if isinstance(a, _BYTES) and isinstance(b, _BYTES):
+        r = (SymBytes(a) if not isinstance(a, SymBytes) else a) == b
+        return r is True or (r is not False and bool(r))
+    if isinstance(a, _BYTES) or isinstance(b, _BYTES):
+        return False
+    if isinstance(a, tuple) and isinstance(b, tuple):
+        return len(a) == len(b) and all(_keq(x, y) for x, y in zip(a, b))
+    r = (a == b)
+    return r is True or (r is not False and r is not NotImplemented and bool(r))
+
+
 class FakeCache:
     """stands for diskcache.Cache: persistent mapping keyed by directory; list-backed, linear
     == scan (so symbolic keys are compared by the solver, never hashed)"""
@@ -31,15 +47,39 @@ class FakeCache:
 
     def __getitem__(self, key):
         for k, v in self.items:
-            r = (SymBytes(k) == key) if isinstance(k, SymBytes) or isinstance(key, SymBytes) else (k == key)
-            if r is True or (r is not False and bool(r)):
+            if _keq(k, key):
                 return v
         raise KeyError(key)
 
+    def get(self, key, default=None):
+        try:
+            return self[key]
+        except KeyError:
+            return default
+
+    def __contains__(self, key):
+        try:
+            self[key]
+            return True
+        except KeyError:
+            return False
+
+    def set(self, key, value, *a, **k):
+        self[key] = value
+        return True
+
+    def close(self):
+        pass
+
+    def __enter__(self):
+        return self
+
+    def __exit__(self, *a):
+        return False
+
     def __setitem__(self, key, value):
         for i, (k, _v) in enumerate(self.items):
-            r = (SymBytes(k) == key) if isinstance(k, SymBytes) or isinstance(key, SymBytes) else (k == key)
-            if r is True or (r is not False and bool(r)):
+            if _keq(k, key):
                 self.items[i] = (key, value)
                 return
         self.items.append((key, value))
@@ -47,6 +87,41 @@ class FakeCache:
 
 class FakeDiskcache:
     Cache = FakeCache
+
+
+class FakeHash:
+    """collision-free digest: the content itself behind a tag (hash functions are modelled as
+    injective; equal digests <=> equal contents)"""
+
+    def __init__(self, name, data=b''):
+        self.name = name
+        self.parts = SymBytes(list(pyfront._cells_of(name.encode() + b':')))
+        if len(data):
+            self.update(data)
+
+    def update(self, data):
+        self.parts = self.parts + (data if isinstance(data, SymBytes) else SymBytes(list(pyfront._cells_of(bytes(data)))))
+
+    def digest(self):
+        return self.parts
+
+    def hexdigest(self):
+        return self.parts.hex()
+
+    def copy(self):
+        h = FakeHash(self.name)
+        h.parts = SymBytes(list(self.parts.c))
+        return h
+
+
+class FakeHashlib:
+    def __getattr__(self, name):
+        if name.startswith('_'):
+            raise AttributeError(name)
+        return lambda data=b'', **k: FakeHash(name, data)
+
+    def new(self, name, data=b'', **k):
+        return FakeHash(name, data)
 
 
 def jobs_for(tier):
@@ -88,6 +163,35 @@ def make_harness(job):
         def fake_open(name, mode='r', *a, **k):
             return FakeFile(name)
 
+        # the file system as the function under analysis may observe it: size and a modification
+        # time in whole seconds that never decreases but need not change when a file is rewritten
+        # (same second, or preserved by the tool that wrote it)
+        mtime = {}
+
+        class FakeStat:
+            def __init__(self, name):
+                self.st_size = len(fs[name])
+                self.st_mtime = mtime[name]
+                self.st_mtime_ns = mtime[name] * 1000000000
+                self.st_ino = {'f1': 11, 'f2': 12}[name]
+
+        class FakePath:
+            abspath = realpath = normpath = staticmethod(lambda n: n)
+            getsize = staticmethod(lambda n: len(fs[n]))
+            getmtime = staticmethod(lambda n: mtime[n])
+            exists = isfile = staticmethod(lambda n: n in fs)
+            join = staticmethod(os.path.join)
+            basename = staticmethod(os.path.basename)
+
+        class FakeOs:
+            path = FakePath
+            stat = staticmethod(lambda n, **k: FakeStat(n))
+            fspath = staticmethod(lambda n: n)
+            sep = os.sep
+
+            def __getattr__(self, name):
+                raise Inconclusive('os.%s outside the file-system stub' % name)
+
         def fake_parse_files(filenames, encoding='utf-8'):
             if isinstance(filenames, str):
                 filenames = [filenames]
@@ -96,15 +200,21 @@ def make_harness(job):
         def fake_compile_dict(specification, codec='ber', any_defined_by_choices=None, numeric_enums=False):
             return ('spec', specification, codec, repr(any_defined_by_choices), numeric_enums)
 
-        saved = {k: top.__dict__.get(k) for k in ('open', 'diskcache', 'parse_files', 'compile_dict')}
+        saved = {k: top.__dict__.get(k) for k in ('open', 'diskcache', 'parse_files', 'compile_dict', 'os', 'hashlib')}
         top.__dict__.update(open=fake_open, diskcache=FakeDiskcache, parse_files=fake_parse_files,
                             compile_dict=fake_compile_dict)
+        if 'os' in top.__dict__:
+            top.__dict__['os'] = FakeOs()
+        if 'hashlib' in top.__dict__:
+            top.__dict__['hashlib'] = FakeHashlib()
         calls = []
         ctx.describe = lambda m: {'calls': [
             {'files': c['files'], 'codec': c['codec'], 'numeric_enums': c['ne'], 'adb': repr(c['adb']),
              'encoding': c['enc'],
              'contents': {f: (b.concrete(m).hex() if isinstance(b, SymBytes) else bytes(b).hex())
-                          for f, b in c['contents'].items()}} for c in calls]}
+                          for f, b in c['contents'].items()},
+             'mtime': {f: (m.eval(t.e, model_completion=True).as_signed_long() if hasattr(t, 'e') else t)
+                       for f, t in c['mtime'].items()}} for c in calls]}
         try:
             with shimmed([top]):
                 for i in range(ncalls):
@@ -118,10 +228,14 @@ def make_harness(job):
                     for f in ('f1', 'f2'):
                         if i == 0:
                             fs[f] = ctx.bytes('c%d.%s' % (i, f), lens[f])
+                            mtime[f] = ctx.int('c%d.%s.mtime' % (i, f), 0, 1000)
                         elif ctx.choose('c%d.%s.changed' % (i, f), 2):
                             grow = 0 if small else ctx.choose('c%d.%s.grow' % (i, f), 2)
                             fs[f] = ctx.bytes('c%d.%s' % (i, f), lens[f] + grow)
-                    calls.append(dict(files=files, codec=codec, ne=ne, adb=adb, enc=enc, contents=dict(fs)))
+                            t = ctx.int('c%d.%s.mtime' % (i, f), 0, 1000)
+                            ctx.assume(t >= mtime[f])
+                            mtime[f] = t
+                    calls.append(dict(files=files, codec=codec, ne=ne, adb=adb, enc=enc, contents=dict(fs), mtime=dict(mtime)))
                     got = top._compile_files_cache(files, codec, adb, enc, 'CACHE', ne)
                     want = fake_compile_dict(fake_parse_files(files, enc), codec, adb, ne)
                     conds = []
@@ -168,6 +282,10 @@ def replay(v):
             for f in ('f1', 'f2'):
                 with open(os.path.join(d, f), 'wb') as fo:
                     fo.write(bytes.fromhex(c['contents'][f]))
+                if c.get('mtime'):
+                    # the modification time of the witness (whole seconds; a rewrite within one second)
+                    t = 1700000000 + int(c['mtime'][f])
+                    os.utime(os.path.join(d, f), (t, t))
             files = [os.path.join(d, f) for f in c['files']] if isinstance(c['files'], list) \
                 else os.path.join(d, c['files'])
             adb = eval(c['adb'])
